@@ -1,0 +1,44 @@
+//go:build verif
+
+package httprule
+
+// Structural export of a parsed template for the external verification harness (tag "verif" only).
+
+// VerifSeg is one parsed segment: Kind is 'L' (literal, Lit set), 'S' (*), 'D' (**) or
+// 'V' (variable, Path and Parts set; Parts never contain another variable).
+type VerifSeg struct {
+	Kind  byte
+	Lit   string
+	Path  string
+	Parts []VerifSeg
+}
+
+func verifSeg(s segment) VerifSeg {
+	switch v := s.(type) {
+	case wildcard:
+		return VerifSeg{Kind: 'S'}
+	case deepWildcard:
+		return VerifSeg{Kind: 'D'}
+	case literal:
+		return VerifSeg{Kind: 'L', Lit: string(v)}
+	case variable:
+		out := VerifSeg{Kind: 'V', Path: v.path}
+		for _, p := range v.segments {
+			out.Parts = append(out.Parts, verifSeg(p))
+		}
+		return out
+	}
+	return VerifSeg{Kind: '?'}
+}
+
+// VerifSegments returns the parsed segments and verb of a template produced by Parse.
+func VerifSegments(c Compiler) (segs []VerifSeg, verb string, ok bool) {
+	t, ok := c.(template)
+	if !ok {
+		return nil, "", false
+	}
+	for _, s := range t.segments {
+		segs = append(segs, verifSeg(s))
+	}
+	return segs, t.verb, true
+}
